@@ -1,5 +1,6 @@
 import PV.Lemmas.IPCSysV
 import PV.Lemmas.IPCSysVSeg
+import PV.Lemmas.IPCSysVAtt
 /-!
 # C07, System V variant — shared memory (`pshm-sysv.c` + `psemaphore-sysv.c` + key files over `PV.SysV.OS`)
 -/
@@ -74,6 +75,42 @@ theorem same_segment (n : Nat) (i : Ino) (sid : SegId) (g : G) (h1 h2 : Hid) (p1
     distinctness per process) is NOT proved here — it is an explicit hypothesis of the next theorem. -/
 def Attached (g : G) (p : Pid) (m : PShm) : Prop :=
   ∃ a att, m.addr = .at a ∧ findAtt (g.os.procs p) a = some att ∧ m.hdl = some att.seg
+
+/-- the only way `Attached` is lost: a step of ANY thread of ANY process keeps the struct `m` of process `p` attached — unless it
+    is a `shmdt` issued by `p` itself with exactly `m`'s address (`hfresh`: attachment addresses of `p` are below its next
+    address, which `shmat` preserves) -/
+theorem attached_until_own_shmdt (g : G) (t : Tid) (intr : Bool) (c : Call) (p : Pid) (m : PShm)
+    (hc : g.calls t = some c) (ha : Attached g p m)
+    (hfresh : ∀ att, att ∈ (g.os.procs p).atts → att.addr < (g.os.procs p).nextAddr)
+    (hdt : g.pidOf t = p → ∀ a, c.next = .shmdt (some a) → m.addr ≠ .at a) : Attached (g.step t intr) p m := by
+  have ha' : attached (g.os.procs p) m := ha
+  have := attached_sysStep p (g.pidOf t) intr c.next g.os c.name m ha' hfresh hdt
+  rw [← step_os g t intr c hc] at this
+  exact this
+
+/-- … and the library issues `shmdt` only as the first step of a clean-up (`p_shm_free`, or a failing `p_shm_new`), with the
+    address stored in that call's own struct -/
+theorem shmdt_only_in_cleanup (c : Call) (b : Option Nat) (h : c.next = .shmdt b) :
+    ∃ s, (c = .shmFree s ∨ ∃ hid, c = .shmNew hid s) ∧ s.pc = .kDt ∧ b = addrOpt s.h.addr := by
+  have semno : ∀ st : SemSt, st.next ≠ .shmdt b := by
+    intro st e
+    obtain ⟨api, sh, spc, _, _, _⟩ := st
+    cases spc <;> simp [SemSt.next] at e
+  have shm : ∀ s : ShmSt, s.next = .shmdt b → s.pc = .kDt ∧ b = addrOpt s.h.addr := by
+    intro s e
+    obtain ⟨isNew, hh, req, pc, built, isExists, failing⟩ := s
+    cases pc with
+    | kDt => simp only [ShmSt.next, Sys.shmdt.injEq] at e; exact ⟨rfl, e.symm⟩
+    | cSem st => exact absurd (by simpa [ShmSt.next] using e) (semno st)
+    | kSem st => exact absurd (by simpa [ShmSt.next] using e) (semno st)
+    | _ => simp [ShmSt.next] at e
+  cases c with
+  | semNew hid s => exact absurd h (semno s)
+  | semFree s => exact absurd h (semno s)
+  | semOp hid s => exact absurd h (semno s)
+  | lockOp hid m s => exact absurd h (semno s)
+  | shmNew hid s => exact ⟨s, Or.inr ⟨hid, rfl⟩, shm s h⟩
+  | shmFree s => exact ⟨s, Or.inl rfl, shm s h⟩
 
 /-- same bytes through all handles of the name: under the invariant, a store through any live handle of the name that does not
     fault is what a load through any other live handle of the name (any process) returns at that offset — provided both
